@@ -8,6 +8,8 @@ FIXED_NAMES = [
     "alpha", "Beta", "two words", "héllo", "日本", "ß", "", "{{literal}}", "a{{b", "}}x{{", 'q"uote', "back\\slash",
     "UPPER_CASE", "kebab-name", "x", "1234567890123456", "tab\there", " lead", "trail ", "é", "\U0001F600 smile",
     "a.b.c", "İstanbul", "ﬃ", "0", "-", "long long long long long long name", "mid  dle",
+    # longer than 1 KiB
+    "kib " + "0123456789abcdef" * 70,
 ]
 
 PREFIXES = [None, None, None, "", "pre_", "é", "NS::", "p r e "]
@@ -20,9 +22,9 @@ DISPLAY_TYPES = {
 NODISPLAY_TYPES = ["Option<u8>", "Vec<u8>", "()"]
 
 INNER = {
-    "int": ["", "", ":>4", ":03", ":+", ":#x", ":<6", ":^8", ":#010b", ":*^7", ":e", ":?", ":#o", ":é>5", ":+08"],
-    "str": ["", "", ":>6", ":.2", ":^7.3", ":*<5", ":é>4", ":?", ":.0", ":10.10"],
-    "float": ["", "", ":.2", ":8.3", ":+.1", ":e", ":08.2", ":?", ":.0", ":<9.1"],
+    "int": ["", "", ":>4", ":03", ":+", ":#x", ":<6", ":^8", ":#010b", ":*^7", ":e", ":?", ":#o", ":é>5", ":+08", ":#?", ":x?", ":X?"],
+    "str": ["", "", ":>6", ":.2", ":^7.3", ":*<5", ":é>4", ":?", ":.0", ":10.10", ":#?"],
+    "float": ["", "", ":.2", ":8.3", ":+.1", ":e", ":08.2", ":?", ":.0", ":<9.1", ":>+08.3", ":#?", ":E"],
     "char": ["", ":>3", ":?", ":é^5"],
     "bool": ["", ":>6", ":<7", ":?"],
     "flaky": ["", "", ":>6", ":.2"],
@@ -37,6 +39,9 @@ FIELD_NAMES = ["a", "b", "name", "value", "x", "count", "_under", "field0", "s",
 
 
 def rs(s):
+    # a literal with a double quote (and no backslash, newline or '#') is written as a raw string
+    if '"' in s and not any(c in s for c in "\\#\n\t"):
+        return 'r#"' + s + '"#'
     out = []
     for ch in s:
         if ch == "\\":
@@ -312,6 +317,7 @@ def generate(rng, seed, size):
         out.append("impl Subject for %s%s {\n" % (ename, inst))
         out.append("    fn display(&self) -> &dyn fmt::Display { self }\n")
         out.append("    fn debug(&self) -> String { format!(\"{:?}\", self) }\n")
+        out.append("    fn direct_to_string(&self) -> String { self.to_string() }\n")
         out.append("    #[allow(unused_variables, unreachable_patterns)]\n")
         out.append("    fn ref_fmt(&self, __sink: &mut dyn Write) -> fmt::Result {\n        match self {\n")
         for v in sel:
